@@ -415,12 +415,24 @@ class ConvGeneralDilatedPlugin(PrimitiveLeafPlugin):
         rhs_shape = tuple(getattr(rhs_var.aval, "shape", ()))
         out_shape = tuple(getattr(out_var.aval, "shape", ()))
 
+        if int(params.get("batch_group_count", 1) or 1) != 1:
+            raise NotImplementedError(
+                "conv_general_dilated with batch_group_count != 1 is not supported"
+            )
+
         conv_kwargs: dict[str, object] = {}
         strides = params.get("window_strides", (1, 1))
         conv_kwargs["strides"] = [int(s) for s in strides]
 
         lhs_dilation = params.get("lhs_dilation")
         is_transpose = lhs_dilation and any(d > 1 for d in lhs_dilation)
+        if is_transpose:
+            # lhs_dilation is the stride of ONNX ConvTranspose; an additional window stride has no counterpart
+            if any(int(s) != 1 for s in strides):
+                raise NotImplementedError(
+                    "conv_general_dilated with lhs_dilation and window_strides != 1 is not supported"
+                )
+            conv_kwargs["strides"] = [int(d) for d in lhs_dilation]
         op_type = "ConvTranspose" if is_transpose else "Conv"
         target_input_layout = _canonical_input_layout(lhs_layout)
         target_kernel_layout = _canonical_kernel_layout(
@@ -509,6 +521,12 @@ class ConvGeneralDilatedPlugin(PrimitiveLeafPlugin):
             # Empirical evidence shows flipping is required.
             rhs_val = _flip_spatial_dims(
                 ctx, rhs_val, rhs_shape, rhs_layout, "conv_rhs_transpose"
+            )
+
+        pads_final = conv_kwargs.get("pads")
+        if isinstance(pads_final, Sequence) and any(int(p) < 0 for p in pads_final):
+            raise NotImplementedError(
+                "conv_general_dilated padding that lowers to negative ONNX pads is not supported"
             )
 
         groups = params.get("feature_group_count", 1)
